@@ -354,6 +354,8 @@ inline std::vector<double> alphabet(const std::string &name) {
     if (name == "D") return {0.25, 0.5, 0.75};
     if (name == "F") return {0.1, 0.2, 0.3};
     if (name == "F4") return {0.1, 0.2, 0.3, 0.7};
+    if (name == "N3") return {0.001, 0.002, 0.002 + 4e-10};                  // near ties at the small end of [1e-3,1e3]: routes differ by 4e-10 absolute, i.e. 1e-7 relative -
+    if (name == "N4") return {0.001, 0.002, 0.002 + 4e-10, 0.003 + 8e-10};   // a hundred times the property's tolerance and nine orders of magnitude above rounding error
     if (name == "M2") return {-2};      // deterministic pattern w_i = 1 + (i mod 2): one weighting per graph (for graphs too large for all weightings)
     if (name == "M3") return {-3};      // w_i = 1 + (i mod 3)
     // fixed menus of pseudo-random weightings: "R9x4" = 4 weightings per graph with weights 1..9 from a deterministic LCG.
